@@ -23,6 +23,7 @@ type C04Cfg struct {
 	T        int       `json:"t"`
 	Late     int       `json:"late"` // index into IDs of a node that starts late (-1: none)
 	Topic    string    `json:"topic"`
+	Signers  []uint16  `json:"signers,omitempty"` // explicit signer set (default: drawn)
 }
 
 func genC04(seed uint64, tier string) C04Cfg {
@@ -143,6 +144,103 @@ func totality(events []scripted.Event, prefix string, pidOf map[uint16]uint16) (
 	return problems, handoffs
 }
 
+// SessOut is what a fault-free session run leaves behind for the oracles.
+type SessOut struct {
+	W       *netsim.World
+	D       *Deployment
+	OK      bool // every phase finished and every call returned nil
+	Stored  map[uint16][]byte
+	Calls   []*netsim.Call
+	Signers []uint16
+}
+
+// runSession executes KeyGen and/or Sign among the nodes of cfg inside the
+// current bubble, under the scheduler of spec, until everything is drained.
+// Violations of "a fault-free session finishes" are appended to res under the
+// invariant prefix inv.
+func runSession(spec RunSpec, cfg C04Cfg, inv string, res *RunResult, setup func(d *Deployment)) (*SessOut, *netsim.ScriptSched) {
+	w := netsim.NewWorld(spec.Seed)
+	w.Serial = cfg.Serial
+	trace(spec, res.Cfg, w)
+	d := NewDeployment(w, cfg.Deploy)
+	if setup != nil {
+		setup(d)
+	}
+	d.Build()
+	out := &SessOut{W: w, D: d, Stored: map[uint16][]byte{}}
+	sched, ss := scheduler(spec, cfg.Strategy)
+	lim := netsim.RunLimits{MaxSteps: 200000, Horizon: 30 * time.Minute, FairAfterSteps: 6000, FairAfter: 2 * time.Minute}
+	viol := func(i, class, detail string) {
+		res.Violations = append(res.Violations, netsim.Violation{Invariant: i, Class: class, Detail: detail})
+	}
+	r := prng.Derive(spec.Seed, "workload")
+	phase := func(name string, st *starter) bool {
+		w.Propose = st.proposals
+		v := w.Run(sched, lim, func() bool { return st.allDone(w) && quiet(w) })
+		w.Propose = nil
+		out.Calls = append(out.Calls, st.calls()...)
+		if v != nil {
+			res.Violations = append(res.Violations, *v)
+			return false
+		}
+		if w.PanicCount() > 0 {
+			return false
+		}
+		if !(st.allDone(w) && quiet(w)) {
+			viol(inv+"/stalled", inv+"/stalled/"+name, fmt.Sprintf("fault-free %s did not finish under a fair schedule: %s queued=%d stuck=%v log=%s", name, callSummary(st.calls()), w.QueuedTotal(), w.Stuck(), d.Log.Summary("WE")))
+			return false
+		}
+		for _, c := range st.calls() {
+			if c.Err != nil {
+				viol(inv+"/call-failed", inv+"/call-failed/"+name, fmt.Sprintf("fault-free %s: %s log=%s", name, callSummary(st.calls()), d.Log.Summary("WE")))
+				return false
+			}
+		}
+		return true
+	}
+	weight := func(i int) float64 {
+		if i == cfg.Late {
+			return 0.01
+		}
+		return 3
+	}
+	ok := true
+	if cfg.Op == "keygen" || cfg.Op == "both" {
+		st := &starter{}
+		for i, id := range cfg.Deploy.IDs {
+			st.add(fmt.Sprintf("start:kg:%d", id), id, weight(i), startKeyGen(d, id, cfg.N, cfg.T, 0))
+		}
+		ok = phase("keygen", st)
+		for _, c := range st.calls() {
+			out.Stored[c.Node] = c.Out
+		}
+	}
+	if ok && (cfg.Op == "sign" || cfg.Op == "both") {
+		signers := cfg.Signers
+		if signers == nil {
+			signers = signersFor(d, r, cfg.Topic)
+		}
+		out.Signers = signers
+		var parties []uint16
+		for _, id := range cfg.Deploy.IDs {
+			parties = append(parties, d.Cfg.PIDs[id])
+		}
+		st := &starter{}
+		for i, id := range signers {
+			sd := out.Stored[id]
+			if sd == nil {
+				sd = fabricatedStored(parties, cfg.T, d.Cfg.PIDs[id])
+			}
+			d.Parties[id].SetStoredData(sd)
+			st.add(fmt.Sprintf("start:sg:%d", id), id, weight(i), startSign(d, id, sha([]byte("digest")), cfg.Topic, 0))
+		}
+		ok = phase("sign", st)
+	}
+	res.Violations = append(res.Violations, panicViolations(w, inv+"/panic")...)
+	out.OK = ok && len(res.Violations) == 0
+	return out, ss
+}
+
 func runC04(t *testing.T, spec RunSpec) *RunResult {
 	var cfg C04Cfg
 	if spec.Cfg != nil {
@@ -159,85 +257,20 @@ func runC04(t *testing.T, spec RunSpec) *RunResult {
 	}
 	res.ConfigKey = fmt.Sprintf("n=%d %s %s serial=%v", cfg.N, mode, cfg.Op, cfg.Serial)
 	bubble(t, func() {
-		w := netsim.NewWorld(spec.Seed)
-		w.Serial = cfg.Serial
-		trace(spec, res.Cfg, w)
-		d := NewDeployment(w, cfg.Deploy)
-		d.Build()
-		sched, ss := scheduler(spec, cfg.Strategy)
-		lim := netsim.RunLimits{MaxSteps: 200000, Horizon: 30 * time.Minute, FairAfterSteps: 6000, FairAfter: 2 * time.Minute}
-		viol := func(inv, class, detail string) {
-			res.Violations = append(res.Violations, netsim.Violation{Invariant: inv, Class: class, Detail: detail})
-		}
-		r := prng.Derive(spec.Seed, "workload")
-		phase := func(name string, st *starter) bool {
-			w.Propose = st.proposals
-			v := w.Run(sched, lim, func() bool { return st.allDone(w) && quiet(w) })
-			w.Propose = nil
-			if v != nil {
-				res.Violations = append(res.Violations, *v)
-				return false
-			}
-			if w.PanicCount() > 0 {
-				return false
-			}
-			if !(st.allDone(w) && quiet(w)) {
-				viol("C04/stalled", "C04/stalled/"+name, fmt.Sprintf("fault-free %s did not finish: %s queued=%d stuck=%v log=%s", name, callSummary(st.calls()), w.QueuedTotal(), w.Stuck(), d.Log.Summary("WE")))
-				return false
-			}
-			for _, c := range st.calls() {
-				if c.Err != nil {
-					viol("C04/call-failed", "C04/call-failed/"+name, fmt.Sprintf("fault-free %s: %s", name, callSummary(st.calls())))
-					return false
-				}
-			}
-			return true
-		}
-		weight := func(i int) float64 {
-			if i == cfg.Late {
-				return 0.01
-			}
-			return 3
-		}
-		ok := true
-		stored := map[uint16][]byte{}
-		if cfg.Op == "keygen" || cfg.Op == "both" {
-			st := &starter{}
-			for i, id := range cfg.Deploy.IDs {
-				st.add(fmt.Sprintf("start:kg:%d", id), id, weight(i), startKeyGen(d, id, cfg.N, cfg.T, 0))
-			}
-			ok = phase("keygen", st)
-			for _, c := range st.calls() {
-				stored[c.Node] = c.Out
-			}
-		}
-		if ok && (cfg.Op == "sign" || cfg.Op == "both") {
-			signers := signersFor(d, r, cfg.Topic)
-			st := &starter{}
-			for i, id := range signers {
-				sd := stored[id]
-				if sd == nil {
-					sd = fabricatedStored(cfg.Deploy.IDs, cfg.T, id)
-				}
-				d.Parties[id].SetStoredData(sd)
-				st.add(fmt.Sprintf("start:sg:%d", id), id, weight(i), startSign(d, id, sha([]byte("digest")), cfg.Topic, 0))
-			}
-			ok = phase("sign", st)
-		}
-		res.Violations = append(res.Violations, panicViolations(w, "C04/panic")...)
-		if ok && len(res.Violations) == 0 {
+		out, ss := runSession(spec, cfg, "C04", res, nil)
+		w, d := out.W, out.D
+		if out.OK {
 			ev := d.Rec.Snapshot()
 			total := 0
 			for _, prefix := range []string{"kg", "sg"} {
 				probs, n := totality(ev, prefix, d.Cfg.PIDs)
 				total += n
-				for _, p := range probs {
-					viol("C04/totality", "C04/totality", p)
-					break
+				if len(probs) > 0 {
+					res.Violations = append(res.Violations, netsim.Violation{Invariant: "C04/totality", Class: "C04/totality", Detail: strings.Join(probs, "; ")})
 				}
 			}
 			if n := d.Log.Count("Detected conflicting digests") + d.Log.Count("Equivocation detected"); n > 0 {
-				viol("C04/false-equivocation", "C04/false-equivocation", fmt.Sprintf("%d equivocation conclusions among honest parties", n))
+				res.Violations = append(res.Violations, netsim.Violation{Invariant: "C04/false-equivocation", Class: "C04/false-equivocation", Detail: fmt.Sprintf("%d equivocation conclusions among honest parties", n)})
 			}
 			w.Probes["handoffs"] = total
 		}
